@@ -33,6 +33,10 @@ pub struct Content {
 
 impl Content {
     pub fn new(rng: &mut impl Rng, nkeys: usize, nch: usize, maxlen: u32) -> Self {
+        Self::new_sized(rng, nkeys, nch, 1, maxlen)
+    }
+
+    pub fn new_sized(rng: &mut impl Rng, nkeys: usize, nch: usize, minlen: u32, maxlen: u32) -> Self {
         let mut c = Content {
             keys: vec![],
             names: vec![],
@@ -56,7 +60,7 @@ impl Content {
             let mut datas = vec![];
             for i in 0..nch {
                 loop {
-                    let n = rng.gen_range(1..=maxlen);
+                    let n = rng.gen_range(minlen..=maxlen);
                     let mut d = vec![0u8; n as usize];
                     rng.fill(&mut d[..]);
                     if n < 4 {
@@ -780,6 +784,49 @@ fn run_faults(ctl: &Arc<Ctl>, c: &Arc<Content>, cap: u64, rng: &mut impl Rng, ou
     Ok(nruns)
 }
 
+/// Damage + concurrency (C12): a large item is put, the cache closed, one burst error planted in its file, the
+/// directory re-opened, and several threads read the damaged item at the same moment.  Large chunks make the
+/// checksum pass long enough for readers to overlap.
+fn run_dstorm(ctl: &Arc<Ctl>, c: &Arc<Content>, cap: u64, rng: &mut impl Rng, nthreads: usize) -> Vec<String> {
+    let dir = tempfile::tempdir().unwrap();
+    ctl.reset_sched();
+    ctl.set_controlled(false);
+    let _ = ctl.take_events();
+    set_thread_actor("t1");
+    let cache = open_cache(c, dir.path(), cap, false).unwrap();
+    let nch = c.nch as u32;
+    do_op(c, &cache, &Op { kind: "put".into(), k: 0, s: 0, e: nch });
+    drop(cache);
+    hemit("CcClose", String::new());
+    let p = c.item_path(dir.path(), 0, 0, nch);
+    let mut b = std::fs::read(&p).unwrap();
+    let pos = rng.gen_range(b.len() / 2..b.len());
+    b[pos] ^= 1 << rng.gen_range(0..8);
+    std::fs::write(&p, &b).unwrap();
+    hemit("CcDamage", format!("\"k\":\"{}\",\"s\":0,\"e\":{nch},\"kind\":\"bad\"", c.names[0]));
+    let Some(cache) = open_cache(c, dir.path(), cap, true) else {
+        return normalise(c, ctl.take_events());
+    };
+    let barrier = Arc::new(std::sync::Barrier::new(nthreads));
+    let mut hs = vec![];
+    for i in 0..nthreads {
+        let (c2, cache2, b2) = (c.clone(), cache.clone(), barrier.clone());
+        // every reader asks for a range that includes the damaged half of the item
+        let s = if i % 2 == 0 { 0 } else { nch / 2 };
+        hs.push(std::thread::spawn(move || {
+            set_thread_actor(&format!("t{}", i + 1));
+            b2.wait();
+            do_op(&c2, &cache2, &Op { kind: "get".into(), k: 0, s, e: nch });
+        }));
+    }
+    for h in hs {
+        let _ = h.join();
+    }
+    set_thread_actor("main");
+    quiesce(c, &cache, dir.path(), true);
+    normalise(c, ctl.take_events())
+}
+
 fn parse_op(c: &Content, v: &Value) -> Option<Op> {
     let kind = v.get("kind")?.as_str()?.to_string();
     let k = c.names.iter().position(|n| n == v["k"].as_str().unwrap_or(""))?;
@@ -800,7 +847,7 @@ pub fn run(a: &Args) -> anyhow::Result<String> {
     let mut rng = crate::util::rng(seed);
     let nkeys = a.u64("keys", 2) as usize;
     let nch = a.u64("nch", 3) as usize;
-    let c = Arc::new(Content::new(&mut rng, nkeys, nch, a.u64("maxlen", 24) as u32));
+    let c = Arc::new(Content::new_sized(&mut rng, nkeys, nch, a.u64("minlen", 1) as u32, a.u64("maxlen", 24) as u32));
     // capacity: room for roughly `capitems` average items
     let avg: u64 = (0..nkeys).map(|k| c.file(k, 0, nch as u32).1).sum::<u64>() / nkeys as u64;
     let cap = a.u64("cap", avg * a.u64("capx", 2));
@@ -860,6 +907,13 @@ pub fn run(a: &Args) -> anyhow::Result<String> {
         "seq" => {
             for _ in 0..n {
                 let ev = run_seq(&ctl, &c, cap, &mut rng, a.u64("ops", 60) as usize, a.has("junk"));
+                note(&ev);
+                out.run(&ev)?;
+            }
+        },
+        "dstorm" => {
+            for _ in 0..n {
+                let ev = run_dstorm(&ctl, &c, cap, &mut rng, a.u64("threads", 8) as usize);
                 note(&ev);
                 out.run(&ev)?;
             }
